@@ -21,7 +21,7 @@ RULE = ('threshold_proportional: all matrices over {0,1,2,3} on 1-2 nodes (p*cou
         'other utilities: all matrices over {-2,-1,0,1,2} on 3 nodes and symmetric on 4 nodes x thr in every value '
         'and midpoint; non-trivial = (matrix,p) where p*M falls on x.5, or where weights tie across the cut, or '
         'fewer connections exist than requested')
-ASSUMPTIONS = ['with copy=False the argument is passed C-ordered, Fortran-ordered, as a strided view, as well as - for every fifth matrix of a family and all matrices on 1-2 nodes - as float32, as big-endian float64 and as int64 (an integer array cannot hold 1/w or w/max: invert / normalize must then reject the in-place call with BCTParamError and, with copy=True, return the float result) (the contract and the values must not depend on layout or element type; float32 results are checked for the contract only)',
+ASSUMPTIONS = ['with copy=False the argument is passed C-ordered, Fortran-ordered, as a strided view, as well as - for every fifth matrix of a family and all matrices on 1-2 nodes - as float32, as big-endian float64 and as int64, plus int8 matrices using the full range -128..127 with copy=True (an integer array cannot hold 1/w or w/max: invert / normalize must then reject the in-place call with BCTParamError and, with copy=True, return the float result) (the contract and the values must not depend on layout or element type; float32 results are checked for the contract only)',
                'float64 inputs; p values are dyadic (exact products) or far from a .5 boundary',
                'expected count = round-half-up of the exact rational p*M']
 
@@ -243,6 +243,18 @@ def check_utils(t, W, case):
                         t.viol(fname, 'definition', dict(c, layout='int64'), observed=oi, expected=exp)
                     if not np.array_equal(Wi, W) or Wi.dtype != np.int64:
                         t.viol(fname, 'copy_true_argument_untouched', dict(c, layout='int64'), observed=Wi, expected=W)
+                # a narrow integer type that uses its full range (-128 is the one value whose magnitude does not fit)
+                if ETYPES[0]:
+                    W8 = np.clip(W * 64, -128, 127).astype(np.int8)
+                    if np.any(W8):
+                        W8f = W8.astype(float)
+                        exp8 = {'binarize': (W8f != 0).astype(float), 'normalize': W8f / np.max(np.abs(W8f)),
+                                'invert': np.where(W8f != 0, 1.0 / np.where(W8f != 0, W8f, 1.0), 0.0)}[fname]
+                        st, o8 = guarded(getattr(bct, fname), W8.copy(), copy=True)
+                        if st != 'ok':
+                            t.viol(fname, 'raises', dict(c, layout='int8_full_range', W=W8), observed=o8)
+                        elif not orc.close(np.asarray(o8, dtype=float), exp8):
+                            t.viol(fname, 'definition', dict(c, layout='int8_full_range', W=W8), observed=o8, expected=exp8)
             out2 = call_util(t, 'weight_conversion', dict(c, wcm=wcm),
                              lambda X, copy: bct.weight_conversion(X, wcm, copy=copy), W, copy)
             if out2 is not None and not orc.close(out2, exp):
